@@ -426,6 +426,15 @@ def run(ctx):
                 exc = n.exc
                 nm = call_name(exc) if isinstance(exc, ast.Call) else (dotted(exc) if exc is not None else None)
                 key = '%s.%s|raise %s' % (clsname, mname, nm)
+                if getattr(n, '_synthetic_keyerror', False):
+                    # stands for TABLE[KEY] of a constant lookup table (pv/tables.py): a violation only if the interpreter finds a path on which the key is none of the table's
+                    reach = [e_ for e_ in ai.events if e_['kind'] == 'raise' and e_.get('exc') == 'KeyError' and e_['line'] == n.lineno and e_['fn'] == mname and not e_.get('in_try')]
+                    if clsname == 'KmipEngine' and not reach:
+                        ctx.ok('C13.R4', site, 'table lookup: the key is one of the table\'s on every path')
+                        continue
+                    if clsname != 'KmipEngine':
+                        continue
+                    key = '%s.%s|table lookup may raise KeyError' % (clsname, mname)
                 if nm and nm.startswith('exceptions.') and nm.split('.')[1] in kerr:
                     cn = nm.split('.')[1]
                     if cn in ('KmipError', 'OperationFailure') and isinstance(exc, ast.Call):
